@@ -290,7 +290,7 @@ def _write_container(path_base, kind, arr, utt):
 
     if kind == "npy":
         p = path_base + ".npy"
-        np.save(p, arr)
+        np.save(p, arr)  # (keeps a Fortran-ordered array Fortran-ordered)
     elif kind == "npz":
         p = path_base + ".npz"
         np.savez(p, **{utt: arr, "zz_other": np.zeros(3)})
@@ -330,6 +330,8 @@ def _torch_inputs(case):
             sel = s[case["channel"] if case["channel"] != -1 else 0]
         if kind != "wav":
             arr = arr.astype({"i16": np.int16, "f32": np.float32, "f64": np.float64}[u.get("dtype", "i16")])
+            if u.get("fortran") and arr.ndim == 2:
+                arr = np.asfortranarray(arr)  # a channels-first array stored in column-major order
         out[_uid(case, i)] = (kind, arr, sel)
     return out
 
@@ -523,7 +525,7 @@ def _torch_cases(draw):
              "channels": maxch if channel != -1 else 1,
              "seed": draw(st.integers(0, 2 ** 31 - 1)), "amp": draw(st.sampled_from([3000, 30000, 10])),
              "container": draw(st.sampled_from(conts)), "dtype": draw(st.sampled_from(["i16", "f32", "f64"])),
-             "flat": draw(st.booleans())}
+             "flat": draw(st.booleans()), "fortran": draw(st.sampled_from([False, False, True]))}
         if u["container"] == "wav":
             u["n"] = max(u["n"], 1)
         utts.append(u)
